@@ -82,6 +82,9 @@ def eval_table(rec):
             else:
                 row["x"] = objs[0]["x"]
                 row["f"] = float(objs[0]["v"])
+        if row["x"] is None and not any(e["t"] == "con" for e in sl) \
+                and b.fun is None and ev["exc"] in (None, "CallbackSuccess"):
+            row["x"] = np.array(ev["pb"].build_x(ev["x"]), dtype=float)
         cvals = []
         for j in range(len(b.nl)):
             cj = [e for e in sl if e["t"] == "con" and e["j"] == j
@@ -100,8 +103,6 @@ def eval_table(rec):
                 row["ok"] = False
                 cvals.append(None)
         row["cvals"] = cvals
-        if row["x"] is None and not b.nl and b.fun is None:
-            row["ok"] = False
         if row["ok"] and row["x"] is not None:
             row["v"], row["slack"] = truth.true_maxcv(b, row["x"], cvals, cons)
         out.append(row)
@@ -398,6 +399,11 @@ def o_c06(rec):
                          f"{len(objs)} times", n=len(objs)))
             break
         point = objs[0]["x"] if objs else None
+        if point is None and not any(e["t"] == "con" for e in sl):
+            # no user function called in this round (fun=None and every
+            # constraint call served by the one-entry cache): the user point
+            # is only known through the pure map build_x
+            point = np.array(ev["pb"].build_x(ev["x"]), dtype=float)
         for j in range(len(b.nl)):
             cj = [e for e in sl if e["t"] == "con" and e["j"] == j]
             if point is None and cj:
@@ -613,10 +619,7 @@ def o_c09(rec, table=None):
     if res is None:
         return out, info
     o = completed_options(rec)
-    if not consistent_bounds(b):
-        return out, info
-    if rec.run.tr is None and res.status in (2,):
-        return out, info
+    degenerate = rec.run.tr is None and res.status in (2, -1)
     table = table if table is not None else eval_table(rec)
     tol = feas_tol(rec)
     target = float(o.get("target", -math.inf))
@@ -672,7 +675,9 @@ def o_c09(rec, table=None):
         if res.status not in sat:
             out.append(V("status_after_trigger",
                          f"request {sorted(sat)} satisfied at evaluation {k} "
-                         f"but status={res.status}", k=k, status=res.status))
+                         f"but status={res.status}", k=k, status=res.status,
+                         mechanism="degenerate_early_exit" if degenerate
+                         else "status"))
         if int(res.nfev) != k:
             out.append(V("nfev_after_trigger",
                          f"request satisfied at evaluation {k} but "
